@@ -84,7 +84,7 @@ def run(chk):
                 "width 1..8 (seeded split and order), both byte orders, 3-byte subsets sampled, plus random layouts up to 64 bytes; length: every "
                 "declared length 0..64 x signal sets of 1..64 bytes (disjoint, overlapping, multiplexed groups sharing bits, equal start bits with "
                 "different widths in both list orders, nested, mixed byte orders whose start numbers are ordered unlike their ends, shuffled) x "
-                "calc_dlc/recalc max/force/other, each followed by set_fd_type and fit_dlc; matrices of 1..6 such frames (as drawn / descending / ascending need) x the three "
+                "calc_dlc/recalc max/force, each followed by set_fd_type and fit_dlc; matrices of 1..6 such frames (as drawn / descending / ascending need) x the two "
                 "strategies, each frame compared with the oracle and with the same frame alone in a fresh matrix, then set_fd_type and a second call; "
                 "one frame object edited in place (compress, dummies, length calls, added/moved signals) compared with a fresh frame after every step; "
                 "fit_dlc and set_fd_type alone on 0..64. non-trivial = at least one gap before a signal / a cell with >= 1 signal / a length that changes or is kept by the "
@@ -392,28 +392,26 @@ def run(chk):
         need = max(used) // 8 + 1 if used else 0      # smallest byte count containing every occupied position
         ends_last = max(range(len(sigs)), key=lambda i: max(layouts.positions(sigs[i][2], sigs[i][0], sigs[i][1]))) if sigs else None
         crossed = bool(sigs) and (sigs[ends_last][0] != max(s[0] for s in sigs) or ends_last != len(sigs) - 1)
-        for mode in range(4):
+        for mode in range(3):       # calc_dlc, recalc_dlc("max"), recalc_dlc("force"); other strategy strings are not constrained by the property
             fr, objs = mk(declared, sigs)
             db = C.CanMatrix()
             db.add_frame(fr)
             if mode == 0:
                 fr.calc_dlc()
             else:
-                db.recalc_dlc(["max", "force", "keep"][mode - 1])
+                db.recalc_dlc(["max", "force"][mode - 1])
             got = fr.size
-            want = max(declared, need) if mode in (0, 1) else (need if mode == 2 else declared)
-            chk.case(("dlc", declared, mode, tuple(sigs)), (want != declared or mode != 3) and (crossed or kind == "disjoint"))
-            chk.count("dlc-" + ["calc_dlc", "recalc-max", "recalc-force", "recalc-other"][mode])
-            inp = dict(op=["calc_dlc", "recalc_dlc(max)", "recalc_dlc(force)", "recalc_dlc(keep)"][mode], declared=declared, shape=kind,
+            want = max(declared, need) if mode in (0, 1) else need
+            chk.case(("dlc", declared, mode, tuple(sigs)), crossed or kind == "disjoint")
+            chk.count("dlc-" + ["calc_dlc", "recalc-max", "recalc-force"][mode])
+            inp = dict(op=["calc_dlc", "recalc_dlc(max)", "recalc_dlc(force)"][mode], declared=declared, shape=kind,
                        **desc(declared, sigs))
             if got != want:
                 key = "calc-dlc-shrinks" if (mode in (0, 1) and got < declared) else ("calc-dlc-not-minimal" if mode in (0, 1) else
-                                                                                        ("recalc-force-not-minimal" if mode == 2 else "recalc-other-strategy"))
+                                                                                        "recalc-force-not-minimal")
                 chk.violation(key, "computed frame length is not the smallest byte count containing all signals (never below the declared "
                               "length unless forced)", inp, want, got)
             add(1603, [[declared, mode]] + groups(sigs), [[got]], inp)
-            if mode == 3:
-                continue
             # the importers' chain: length, then CAN FD type, then fit to a permitted FD length
             was_fd = rng.random() < 0.3
             fr.is_fd = was_fd
@@ -427,7 +425,7 @@ def run(chk):
             if fr.size != fit_want:
                 chk.violation("fit-dlc", "fit_dlc after the length computation does not give the smallest permitted CAN FD length not below it",
                               dict(inp, size_before_fit=got), fit_want, fr.size)
-            elif want == got and fr.size < max(need, 0) and mode != 3:
+            elif want == got and fr.size < max(need, 0):
                 chk.violation("fit-dlc", "fitted length does not contain all signals", dict(inp, size_before_fit=got), need, fr.size)
         chk.count("length-shape-" + kind)
         if crossed:
@@ -467,7 +465,7 @@ def run(chk):
         db.recalc_dlc(strategy)
         got = [fr.size for fr in objs]
         needs = [need_of(s) for _, _, s in frames]
-        want = [max(d, n) if strategy == "max" else (n if strategy == "force" else d) for (d, _, _), n in zip(frames, needs)]
+        want = [max(d, n) if strategy == "max" else n for (d, _, _), n in zip(frames, needs)]
         alone = []
         for declared, fd, sigs in frames:
             fr1, _ = mk(declared, sigs)
@@ -489,7 +487,7 @@ def run(chk):
         if got != want:
             chk.violation("matrix-recalc-not-per-frame-minimum", "recalc_dlc on a matrix: a frame's length is not the smallest byte count "
                           "containing its own signals (never below its declared length unless forced)", inp, want, got)
-        mode = {"max": 0, "force": 1}.get(strategy, 2)
+        mode = {"max": 0, "force": 1}[strategy]
         flat = []
         for d, _, s in frames:
             flat.append([d, len(s)])
@@ -523,7 +521,7 @@ def run(chk):
         if order != "as-drawn":
             frames.sort(key=lambda f: need_of(f[2]), reverse=(order == "descending"))
         chk.count("matrix-order-" + order)
-        for strategy in ("max", "force", "keep"):
+        for strategy in ("max", "force"):      # the two strategies the property speaks about
             check_matrix(frames, strategy)
     chk.sample(dict(op="matrix recalc_dlc(force)", frames=[dict(declared=8, signals=[(0, 48, "intel")]), dict(declared=8, signals=[(0, 12, "intel")])],
                     sizes_after=[6, 2]))
